@@ -1,4 +1,6 @@
 """Type forms (abstraction of typing objects), the Grammar view, and the depth-limited deciders (C03, C04, C05)."""
+import specs.sources  # noqa: F401  (declaration order)
+import specs.gene_sources  # noqa: F401  (declaration order)
 from pyvc.spec import REG as R, Loop
 
 UTL = "geneticengine/grammar/utils.py"
@@ -83,7 +85,9 @@ CHOOSE_PARAMS = dict(ty="~Type", alternatives="list[~Type]", ctx="LocalSynthesis
 ALT_REQ = {
     "some_alternative": "len(alternatives) >= 1",
     "alternatives_registered": "forall(0, len(alternatives), lambda k: gdist_defined(self.grammar, alternatives[k]))",
-    "some_alternative_fits": "exists(0, len(alternatives), lambda k: gdist(self.grammar, alternatives[k]) <= self.max_depth - ctx.depth)",
+}
+ALT_RAISES = {
+    "SynthesisException": "forall(0, len(alternatives), lambda k: gdist(self.grammar, alternatives[k]) > self.max_depth - ctx.depth)",
 }
 ALT_ENS = {
     "is_an_alternative": "exists(0, len(alternatives), lambda k: result == alternatives[k])",
@@ -95,9 +99,10 @@ R.contract(
     returns="~Type",
     requires=dict(ALT_REQ),
     ensures=dict(ALT_ENS),
+    raises=dict(ALT_RAISES),
     modifies=["self.random.*", "self.expanding"],
     verify=False,
-    note="interface of the depth-limited deciders: the chosen production is one of the alternatives and fits the remaining depth",
+    note="interface of the depth-limited deciders: the chosen production is one of the alternatives and fits the remaining depth; SynthesisException only when no alternative fits",
 )
 for key in ("MaxDepthDecider", "FullDecider", "PositionIndependentGrowDecider"):
     R.contract(
@@ -108,6 +113,7 @@ for key in ("MaxDepthDecider", "FullDecider", "PositionIndependentGrowDecider"):
         returns="~Type",
         requires=dict(ALT_REQ),
         ensures={},
+        raises=dict(ALT_RAISES),
         modifies=["self.random.*"] + (["self.expanding"] if key.startswith("Position") else []),
         props=["C03", "C04", "C01"],
     )
